@@ -148,8 +148,8 @@ func mapDomain() *domain {
 			return false
 		}
 		for k, e := range mm {
-			if (k != "a" && k != "b") || !inPool(e) {
-				return false
+			if (k != "a" && k != "b") || (e != nil && !inPool(e)) {
+				return false // values: the pool and nil (a key that holds nil is present)
 			}
 		}
 		return true
@@ -174,7 +174,7 @@ func mapDomain() *domain {
 				out = append(out, Op{K: "getk", T: T, V: k}, Op{K: "mget", T: T, V: k}, Op{K: "mget", T: T, V: k, W: `2`},
 					Op{K: "mpop", T: T, V: k}, Op{K: "mpop", T: T, V: k, W: `2`}, Op{K: "delk", T: T, V: k},
 					Op{K: "in", T: T, V: k}, Op{K: "attr", T: T, V: name})
-				for _, v := range pool3 {
+				for _, v := range append(append([]string{}, pool3...), `nil`) {
 					out = append(out, Op{K: "setk", T: T, V: k, W: v}, Op{K: "msetdefault", T: T, V: k, W: v}, Op{K: "setattr", T: T, V: name, W: v})
 				}
 				out = append(out, Op{K: "iaddk", T: T, V: k, W: `1`}, Op{K: "iaddk", T: T, V: k, W: `"a"`})
